@@ -324,7 +324,7 @@ def correspondence(ctx):
     # "each callback fires once", "applied exactly once or reported as failed": the dispatcher side of it is the callback
     # contract of the Raft core - the at-most-once / fate records of the shared Raft run count here too
     from props import raftcommon as R
-    R.account(ctx, R.raft_run(ctx), ('C02',))
+    R.account(ctx, R.raft_run(ctx), ('C02', 'C19'))
     atomicity(ctx)
     n = 1000 if ctx.quick else 12000
     base = ctx.seed * 1000003 % (2 ** 31)
